@@ -1,5 +1,7 @@
 import OxiddModel.Util.Proto
 import OxiddModel.Bdd.Driver
+import OxiddModel.Bcdd.Driver
+import OxiddModel.Zbdd.Driver
 import OxiddModel.HashTbl.Driver
 import OxiddModel.Mtbdd.Driver
 import OxiddModel.Tdd.Driver
@@ -12,6 +14,8 @@ def echoProto : Proto := { σ := Unit, init := (), step := fun s l => (s, l) }
 def protos : List (String × Proto) := [
   ("echo", echoProto),
   ("bdd", OxiddModel.Bdd.proto),
+  ("bcdd", OxiddModel.Bcdd.proto),
+  ("zbdd", OxiddModel.Zbdd.proto),
   ("tbl", OxiddModel.HashTbl.proto),
   ("mtbdd", OxiddModel.Mtbdd.proto),
   ("tdd", OxiddModel.Tdd.proto),
